@@ -83,6 +83,8 @@ func rulesC17(c *Ctx) {
 	R.Rule("R10", "a refusal by the mint or a failed step is never taken for success: in the wallet, its network client and its storage the error of every call is tested nil, classified or handed on before any return that may report success (sites where continuing is intended are a frozen table)", 70)
 	c.ruleErrorDisciplinePkgs("R10", []string{"wallet", "wallet/*"}, errToleratedWallet, 70)
 	R.Rule("R11", "Melt commits proofs only to a quote that is neither paid nor in flight: selection and submission lie behind 'stored state != PAID' and behind 'stored state != PENDING, or the re-check answered neither PENDING nor PAID'", 3)
+	R.Rule("R12", "foreign proofs stay out of the wallet: on the swap-to-trusted path no storage write takes the proofs of the received token (or of its pre-swap at the untrusted mint)", 1)
+	c.c17ForeignProofsStayOut("R12")
 	c.c17MeltOnlyOpenQuote()
 	R.Rule("R3", "balances are whole-bucket sums", 3)
 	R.Rule("R4", "active-keyset refresh writes the mint entry back", 2)
@@ -637,6 +639,10 @@ func rulesC18(c *Ctx) {
 	R.Rule("R4", "every keyset entry the wallet keeps in memory carries that keyset's fee (from the mint's answer, from storage or from the entry it replaces)", 4)
 	c.c18KeysetEntriesCarryFee()
 	c.c18SendSplit()
+	R.Rule("R11", "proof selection does not corrupt its candidate lists: no append into a proper prefix of a list whose remainder is still used (shared backing array)", 1)
+	c.ruleNoAppendIntoLivePrefix("R11", []string{"wallet", "wallet/storage", "cashu"})
+	R.Rule("R10", "the stored keyset keeps its fee: every storage method that writes or reads one kind of record (keyset, proof, quote) uses a type with the same JSON members - a counter update through a narrower type would drop the keyset's input fee", 8)
+	c.ruleStoredRecordShape("R10", "wallet/storage", 8)
 	R.Rule("R9", "Send selects and removes its proofs in one critical section: the call that selects the proofs and deletes them from the spendable bucket runs with the wallet mutex held (taken before, released only by the deferred unlock)", 1)
 	R.Rule("R8", "the keyset listing the wallet synchronises with is not served from the mint's response cache (shared with C20.R4: only swap and mint are cached; a cached listing keeps naming a rotated-out keyset as active and the swap behind a send is refused)", 10)
 	R.Rule("R6", "the mint's fee operation is the formula the wallet mirrors: ceil(sum of the inputs' keyset ppk / 1000), one rounding per transaction (shared with C02.R4)", 1)
